@@ -4,6 +4,7 @@ import torch
 from kappadata.datasets.kd_wrapper import KDWrapper
 from kappadata.error_messages import REQUIRES_MIXUP_P_OR_CUTMIX_P
 from kappadata.utils.one_hot import to_one_hot_vector
+from kappadata.utils.random import get_rng_from_global
 from torch.nn.functional import pad
 
 
@@ -62,7 +63,11 @@ class KDMixWrapper(KDWrapper):
     def getitem_xclass(self, idx, ctx=None):
         x = self.dataset.getitem_x(idx, ctx=ctx)
         cls = self.dataset.getitem_class(idx, ctx=ctx)
-        rng = np.random.default_rng(seed=self.seed + idx if self.seed is not None else None)
+        if self.seed is not None:
+            rng = np.random.default_rng(seed=self.seed + idx)
+        else:
+            # derive the stream from the global numpy rng (seeded per dataloader worker) instead of OS entropy
+            rng = get_rng_from_global()
 
         # sample what operation to apply (nothing/cutmix/mixup)
         n_classes = self.getdim_class()
